@@ -97,6 +97,9 @@ func vfIsBoolName(s string) bool {
 }
 func vfIsConstName(s string) bool { return len(s) > 1 && s[0] == 'K' && (s[1] == 'B' || s[1] == 'I') }
 func vfIsVarName(s string) bool {
+	if s == "fi" {
+		return true // an integer variable spelled like the compiler's internal end-if marker
+	}
 	if len(s) < 2 || (s[0] != 'b' && s[0] != 'i' && s[0] != 's') {
 		return false
 	}
